@@ -113,7 +113,18 @@ func ImportModuleLevelObject(ctx Context, name string, globals, locals StringDic
 		}
 	}
 
-	module, err := RunFile(ctx, srcPathname, opts, name)
+	// Resolve and run separately (rather than with RunFile) so a
+	// failure to find the module can be told apart from a
+	// FileNotFoundError raised by the module's own code.
+	out, err := ctx.ResolveAndCompile(srcPathname, opts)
+	if err != nil {
+		if IsException(FileNotFoundError, err) {
+			return nil, ExceptionNewf(ImportError, "No module named '%s'", name)
+		}
+		return nil, err
+	}
+
+	module, err := RunCode(ctx, out.Code, out.FileDesc, name)
 	if err != nil {
 		return nil, err
 	}
